@@ -52,7 +52,7 @@ TableParts == {"TABLE", "TABLE_CAPTION", "TABLE_ROW", "TABLE_HEADER_CELL", "TABL
 ModelledTags == {"span", "div", "br", "ref", "li", "ul"}
 NoEndTag(t) == t = "br"
 CloseNext(t) == IF t = "li" THEN {"li"} ELSE {}
-FlowContent == {"div", "li", "ref"}            \* tags whose content has flow or *
+FlowContent == {"div", "li", "ref", "ul"}      \* tags whose content has flow or *
 PhrasingContent == FlowContent \cup {"span"}   \* ... phrasing, flow or *
 PermittedParents(t) ==
   CASE t = "span" -> PhrasingContent
@@ -148,7 +148,7 @@ InRefOrP(st) == \E i \in 1..Len(st.stack) :
                    st.stack[i].kind = "HTML" /\ st.stack[i].sarg \in {<<"ref">>, <<"p">>}
 \* atoms whose text does not start with a \w character
 NonWordAtoms == {"SP", "NL", "=", "'", "''", "'''", "*", "#", ";", ":", "----", "!", "|", "{", "}",
-                 "+", "-", "=b", "nowiki", "url", "magicT", "magicA", "magicL", "magicE", "magicN", "magicF",
+                 "+", "-", "=b", "url", "magicT", "magicA", "magicL", "magicE", "magicN", "magicF",
                  "<span>", "</span>", "<div>", "</div>", "<br>", "</br>", "<ref>", "</ref>", "<ul>", "</ul>",
                  "<li>", "</li>", "<pre>", "</pre>", "<foo>", "</foo>", "<span/>", "<span class=\"c\">", "magicTN"}
 IsWordAtom(a) == a \notin NonWordAtoms
@@ -325,7 +325,9 @@ KeysOf(s, i, acc, cur, val) ==
        IF a \in {"SP", "NL"} THEN KeysOf(s, i + 1, AddKey(acc, cur), "", FALSE)
        ELSE IF val THEN KeysOf(s, i + 1, acc, cur, TRUE)
        ELSE IF a = "a=b" THEN KeysOf(s, i + 1, AddKey(acc, cur \o "a"), "", TRUE)
-       ELSE IF a \in NameAtoms THEN KeysOf(s, i + 1, acc, cur \o a, FALSE)
+       \* (\b: a key starts at a word character; punctuation only continues a key)
+       ELSE IF a = "w" \/ (a \in NameAtoms /\ cur # "") THEN KeysOf(s, i + 1, acc, cur \o a, FALSE)
+       ELSE IF a \in NameAtoms THEN KeysOf(s, i + 1, acc, cur, FALSE)
        ELSE KeysOf(s, i + 1, AddKey(acc, cur), "", FALSE)
 \* check_for_attributes + parse_attrs for a frame whose children are one
 \* string; mixed children are left alone (approximation, see notes/C01.md)
